@@ -25,7 +25,10 @@ var c07yEvents = []string{"req-ok", "req-500", "req-refused(502)", "req-abort", 
 	"req-103-then-500", "req-103-then-ok", "req-garbage(502)", "req-timeout(502)",
 	// every request is subject to the breaker, whatever its kind: requests that ask for a protocol
 	// upgrade (which the backend declines with an ordinary answer), other methods
-	"upgrade-request-ok", "upgrade-request-500", "POST-500", "HEAD-ok", "OPTIONS-500"}
+	"upgrade-request-ok", "upgrade-request-500", "POST-500", "HEAD-ok", "OPTIONS-500",
+	// the client has gone before the backend answers (its request context is cancelled): an
+	// aborted exchange, which counts as a failure - in particular it is no successful trial
+	"req-client-gone"}
 
 type c07yInst struct {
 	s   *vrt.Sched
@@ -38,7 +41,7 @@ type c07yInst struct {
 func (in *c07yInst) LastOutcome() string { return in.out }
 
 func (in *c07yInst) Step(ev int) *vh.HViol {
-	modes := []string{"ok", "500", "refuse", "abort", "", "", "", "103+500", "103+ok", "garbage", "timeout", "ok", "500", "500", "ok", "500"}
+	modes := []string{"ok", "500", "refuse", "abort", "", "", "", "103+500", "103+ok", "garbage", "timeout", "ok", "500", "500", "ok", "500", "client-gone"}
 	edits := map[int]func(*http.Request){
 		11: func(r *http.Request) { r.Header.Set("Connection", "Upgrade"); r.Header.Set("Upgrade", "h2c") },
 		12: func(r *http.Request) {
@@ -69,7 +72,12 @@ func (in *c07yInst) Step(ev int) *vh.HViol {
 	for _, h := range in.k.hitsVector() {
 		before += h
 	}
-	res := in.k.requestWith("10.0.0.1", nil, edits[ev])
+	var res reqResult
+	if modes[ev] == "client-gone" {
+		res = in.k.requestCancelled("10.0.0.1")
+	} else {
+		res = in.k.requestWith("10.0.0.1", nil, edits[ev])
+	}
 	after := 0
 	for _, h := range in.k.hitsVector() {
 		after += h
